@@ -47,6 +47,43 @@ Proof. exact (C07_encoder_canonical prod_mi prod_ms prod_mi_bounds prod_ms_bound
 Theorem C07_decoder_exact_prod pieces : decode_pieces prod_mi prod_ms pieces = decode_ref prod_mi prod_ms (concat pieces).
 Proof. exact (C07_decoder_exact prod_mi prod_ms pieces). Qed.
 
+(* ---- the decoder at memory level (hcobs/GeoDec.v: DecoderState writing into the geometry-faithful OwningIovec of
+   iovec/Geo.v through push / push_copy, anchored input read into the iovec's own arena) ----
+   For every history of decode (borrowed), decode_copy and decode_read calls interleaved with consumer Reads, up to the first
+   call that returns Err: the memory-level decoder returns Err exactly when the byte-level decoder rejects the pieces so far;
+   otherwise it is in the same state, and what the Reads returned followed by the bytes left in the iovec is the byte-level
+   decoder's output.  With finish (Ok iff the state is BeforeChunk with a pending stuff sequence) this is decode_pieces,
+   i.e. (C07_decoder_exact) the format's meaning of the concatenated input. *)
+From WP Require iovec.Geo hcobs.GeoDec hcobs.GeoDecProofs.
+Theorem C07_geo_decoder (mi ms : nat) ops st ok h g out :
+  Forall GeoDecProofs.dsimple ops ->
+  GeoDecProofs.gd_run mi ms DInit [] Geo.empty_iov ops = Some (st, ok, h, g, out) ->
+  match decode_pieces_from mi ms DInit (GeoDecProofs.gdpieces ops) with
+  | Some (st', dout) => ok = true /\ st = st' /\ out ++ Geo.all_bytes h g = dout
+  | None => ok = false
+  end.
+Proof. exact (GeoDecProofs.gdec_refines mi ms ops st ok h g out). Qed.
+
+Theorem C07_geo_decoder_finish (mi ms : nat) ops st h g out :
+  Forall GeoDecProofs.dsimple ops ->
+  GeoDecProofs.gd_run mi ms DInit [] Geo.empty_iov ops = Some (st, true, h, g, out) ->
+  decode_pieces mi ms (GeoDecProofs.gdpieces ops) = (if dterminate st then Some (out ++ Geo.all_bytes h g) else None).
+Proof.
+  intros Hs E. pose proof (GeoDecProofs.gdec_refines mi ms ops st true h g out Hs E) as H. unfold decode_pieces.
+  destruct (decode_pieces_from mi ms DInit (GeoDecProofs.gdpieces ops)) as [[st' dout]|]; [|discriminate].
+  destruct H as (_ & <- & <-). reflexivity.
+Qed.
+
+Example C07_geo_example :
+  match GeoDecProofs.gd_run 3 5 DInit [] Geo.empty_iov
+          [GeoDec.GDBorrow [3; 49]%N; GeoDec.GDRead [50; 254; 5; 0; 253; 49; 50]%N 9%N; GeoDec.GDRd 2%N;
+           GeoDec.GDCopy [51; 52; 2; 0; 53; 54; 1; 0; 7]%N] with
+  | Some (st, ok, h, g, out) => ok = true /\ dterminate st = true /\
+                                out ++ Geo.all_bytes h g = [49;50;254;253;49;50;51;52;53;54;254;253;7]%N
+  | None => False
+  end.
+Proof. vm_compute. repeat split; reflexivity. Qed.
+
 (* non-vacuity: accepted, rejected for a missing terminator, rejected for an out-of-radix digit *)
 Example C07_examples :
   decode_ref 3 5 [3; 49; 50; 51; 0; 0]%N = Some [49; 50; 51]%N /\
@@ -61,3 +98,5 @@ Print Assumptions C07_decoder_exact.
 Print Assumptions C07_format_iff.
 Print Assumptions C07_constants.
 Print Assumptions C07_encoder_canonical_prod.
+Print Assumptions C07_geo_decoder.
+Print Assumptions C07_geo_decoder_finish.
